@@ -279,6 +279,19 @@ class LabelFlow:
                         self.assign(e, l | pc, env, None)
                 else:
                     self.assign(t, lab, env, st.value)
+                if isinstance(t, ast.Name):
+                    # presence (is it None?) is tracked apart from content: it depends on which assignment was reached (pc) and,
+                    # for a copied name / a call result, on that value's own presence - not on the content of an array
+                    v_ = st.value
+                    if isinstance(v_, ast.Constant):
+                        nl = set()
+                    elif isinstance(v_, ast.Name):
+                        nl = self.noneness(v_, env)
+                    elif isinstance(v_, (ast.Subscript, ast.List, ast.Tuple, ast.Dict, ast.BinOp, ast.Compare, ast.ListComp)):
+                        nl = set()
+                    else:
+                        nl = {l_ for l_ in lab if not l_.startswith("P:")}
+                    env["?" + t.id] = nl | {l_ for l_ in pc if not l_.startswith("P:")} | {l_ for l_ in nl | pc if l_.startswith("P:")}
         elif isinstance(st, ast.AugAssign):
             lab = self.expr(st.value, env) | self.expr(st.target, env) | pc
             self.assign(st.target, lab, env, None)
@@ -354,7 +367,8 @@ class LabelFlow:
             else:
                 self._ret_shapes.add(-1)
             self.at[st] = set(pc)
-            extra |= pc
+            # ranks that return here are gone: among the ranks that go on, values assigned later do not depend on the condition
+            # of this exit (whether later collectives are still matched is the subject of B1-early-return, decided on at[st])
         elif isinstance(st, (ast.With, ast.AsyncWith)):
             for it in st.items:
                 l = self.expr(it.context_expr, env)
@@ -453,6 +467,8 @@ class LabelFlow:
         if e is None or isinstance(e, ast.Constant):
             return set()
         if isinstance(e, ast.Name):
+            if ("?" + e.id) in env:
+                self.__dict__.setdefault("none_at", {})[e] = set(env["?" + e.id])
             return set(env.get(e.id, set()))
         if isinstance(e, ast.Attribute):
             if isinstance(e.value, ast.Name) and e.value.id == "self" and self.fi.cls:
@@ -553,7 +569,7 @@ class LabelFlow:
         if isinstance(x, ast.Constant):
             return set()
         if isinstance(x, ast.Name):
-            return self._none_of_name(x.id, env.get(x.id, set()))
+            return self._none_of_name(x.id, env.get(x.id, set()), env.get("?" + x.id))
         if isinstance(x, ast.Attribute) and isinstance(x.value, ast.Name) and x.value.id == "self":
             return self._expr(x, env)
         return set()
@@ -675,7 +691,9 @@ class LabelFlow:
                     return True
         return False
 
-    def _none_of_name(self, name, l):
+    def _none_of_name(self, name, l, tracked=None):
+        if tracked is not None:
+            return {(x + "?" if x.startswith("P:") and not x.endswith("?") else x) for x in tracked}
         if name in self.fi.params and l == {f"P:{name}"}:
             return {f"P:{name}?"}
         out = {(x + "?" if x.startswith("P:") and not x.endswith("?") else x) for x in l if x.startswith("P:")}
@@ -685,7 +703,7 @@ class LabelFlow:
 
     def noneness_actual(self, a):
         if isinstance(a, ast.Name):
-            return self._none_of_name(a.id, self.at.get(a, set()))
+            return self._none_of_name(a.id, self.at.get(a, set()), getattr(self, "none_at", {}).get(a))
         if isinstance(a, ast.Attribute) and isinstance(a.value, ast.Name) and a.value.id == "self":
             return set(self.at.get(a, set()))
         return set()
@@ -840,7 +858,20 @@ class Tracer:
             if not nu:
                 if self.has_events(st.body) or self.has_events(st.orelse) or \
                         (exits and self.has_events(rest + after)):
-                    self.note_required(tl, f"guard `{tsrc}` governs collectives in {self.fi.qual}")
+                    # a guard whose alternatives issue the same collectives (after expanding the functions they call) may differ
+                    # between ranks: only a guard that really selects between different sequences has to be uniform
+                    same = False
+                    if params_of(tl) and not exits:
+                        try:
+                            fa_ = [self.flatten(p_.events) for p_ in pa if p_.exited != "raise"]
+                            fb_ = [self.flatten(p_.events) for p_ in pb if p_.exited != "raise"]
+                            if fa_ and fb_ and all(f is not None for f in fa_ + fb_):
+                                sa_, sb_ = set().union(*fa_), set().union(*fb_)
+                                same = sa_ == sb_
+                        except Exception:
+                            same = False
+                    if not same:
+                        self.note_required(tl, f"guard `{tsrc}` governs collectives in {self.fi.qual}")
                 res = [Path(self._merge(p.choices, ((tsrc, True),)), p.events, p.exited) for p in pa
                        if self._consistent(p.choices, ((tsrc, True),))]
                 res += [Path(self._merge(p.choices, ((tsrc, False),)), p.events, p.exited) for p in pb
@@ -961,6 +992,42 @@ class Tracer:
                     if self._consistent(p.choices, q.choices):
                         out.append(Path(self._merge(p.choices, q.choices), p.events + q.events, q.exited))
         return out
+
+    def flatten(self, events, depth=0):
+        """events -> set of flat collective sequences (calls expanded through the callees' summaries), or None"""
+        seqs = {()}
+        for ev in events:
+            if ev.kind == "coll":
+                item = {((ev.sig[0],) + tuple(ev.sig[2:]),)}
+            elif ev.kind == "call":
+                tg = self.callee_of.get(ev.node)
+                if not tg:
+                    return None
+                item = set()
+                for t in tg:
+                    sm = self.s.flat_summary(t, depth)
+                    if sm is None:
+                        return None
+                    item |= set(sm)
+            else:
+                return None
+            seqs = {a + b for a in seqs for b in item}
+            if len(seqs) > 64:
+                return None
+        return seqs
+
+    def _flat_balanced(self, a, b):
+        """both alternatives can issue exactly the same flat collective sequences (calls expanded)"""
+        fa, fb = set(), set()
+        for ps, acc in ((a, fa), (b, fb)):
+            for p_ in ps:
+                if p_.exited == "raise":
+                    continue
+                f = self.flatten(p_.events)
+                if f is None:
+                    return False
+                acc |= f
+        return fa == fb and all(len(x) <= 1 or True for x in fa)
 
     def _balanced(self, a, b):
         a = [p for p in a if p.exited != "raise"]
